@@ -2147,6 +2147,7 @@ class PyCdlib:
                                 self.inodes.append(ino)
 
                             ino.linked_records.append((next_entry, False))
+                            ino.num_udf += 1
                             next_entry.inode = ino
 
     def _open_fp(self, fp):
